@@ -105,8 +105,10 @@ CONFIG = {
                 keys=["panic", "err", "ret", "vals", "exec"], transform=t_err_type_only, oracle=oracle_c03, theorems="C03_*"),
     "C04": dict(profile=dict(p_ev_garbage=0.25, p_ev_unknown=0.15, p_mutate_argv=0.5, p_bad_value=0.25, p_mb_short=0.2, p_print=0.6, n_events=(0, 8)),
                 keys=["panic", "err", "out"], transform=common.hide_help, oracle=oracle_c04, theorems="C04_*"),
-    "C05": dict(profile=dict(p_default=0.5, p_env=0.4, p_init=0.5, p_env_set=0.9, p_required=0.02, p_ev_opt=0.4, n_events=(0, 4), p_bad_value=0.03,
-                             p_group=0.4, p_ev_unknown=0.01, p_ev_garbage=0.0, p_mutate_argv=0.0),
+    "C05": dict(profile=dict(p_default=0.5, p_env=0.5, p_init=0.5, p_env_set=0.9, p_required=0.02, p_ev_opt=0.4, n_events=(0, 4), p_bad_value=0.03,
+                             p_group=0.6, p_envns=0.7, p_ev_unknown=0.01, p_ev_garbage=0.0, p_mutate_argv=0.0, p_bad_default=0.02,
+                             types=[("bool", 6), ("int", 8), ("uint8", 3), ("float64", 3), ("string", 12), ("duration", 2), ("custom", 3),
+                                    ("ptr", 6), ("slice", 18), ("map", 14), ("func", 3)]),
                 keys=["panic", "err", "vals"], transform=t_err_type_only, theorems="C05_*"),
     "C06": dict(profile=dict(p_required=0.45, p_positional=0.6, p_pos_required=0.7, p_commands=0.6, p_bad_value=0.01, p_ev_unknown=0.01, p_ev_garbage=0.0,
                              p_default=0.1, n_events=(0, 7), p_mutate_argv=0.02),
@@ -135,6 +137,17 @@ CONFIG = {
 }
 
 
+def c05_history_stream(rep, rng, tier):
+    """C05: INI (normal / as-defaults) before or after the command line, with env, default tags and initial values present at once"""
+    from . import inichecks
+    prof = dict(CONFIG["C05"]["profile"], p_ininame=0.2)
+    def make(r):
+        sc, g = inichecks.make_ini_scenario(r, prof, p_noise=0.05, p_fault=0.0, p_unknown=0.0, asdef_p=0.65, with_parse=True)
+        return sc
+    return common.scenario_check(rep, rng, "C05", 250 if tier == "quick" else 8000, keys=["panic", "err", "vals"], transform=t_err_type_only,
+                                 theorem_names="C05_*", stream="ini+parse", make=make)
+
+
 def run_property(rep, rng, pid, tier, replay=None, extra_streams=None):
     cfg = CONFIG[pid]
     if replay:
@@ -143,6 +156,9 @@ def run_property(rep, rng, pid, tier, replay=None, extra_streams=None):
     if not lib.std_proof_phase(rep, pid):
         return
     n = cfg.get("n_quick", 600) if tier == "quick" else cfg.get("n_thorough", 20000)
+    if pid == "C05":
+        extra_streams = [c05_history_stream]
+        n = cfg.get("n_quick", 350) if tier == "quick" else 12000
     if extra_streams:
         for f in extra_streams:
             if not f(rep, rng, tier):
